@@ -5,9 +5,11 @@
 package ctfe
 
 import (
+	"math/big"
 	"bytes"
 	"context"
 	"crypto/ecdsa"
+	"crypto/elliptic"
 	"crypto/rsa"
 	"crypto/sha256"
 	"net/http"
@@ -26,10 +28,17 @@ func Harness_C01_x509() {
 	be, rl := &envBackend{}, &envReqLog{}
 	li := envLogInfo(be, rl)
 	sig := vBytes("sig", 1+vChoice("sig-len", 3))
-	sg := &envSigner{pub: &ecdsa.PublicKey{}, sig: sig}
+	sg := &envSigner{pub: &ecdsa.PublicKey{Curve: elliptic.P256()}, sig: sig}
 	wantAlg := byte(tls.ECDSA)
-	if vChoice("log-key-type", 2) == 1 {
-		sg.pub, wantAlg = &rsa.PublicKey{}, byte(tls.RSA)
+	// the log's key: ECDSA on P-256, P-384 or P-521, or RSA; whatever the
+	// key, RFC 6962 signs the SHA-256 digest and the SCT says so
+	switch vChoice("log-key-type", 4) {
+	case 1:
+		sg.pub, wantAlg = &rsa.PublicKey{N: big.NewInt(0xc001), E: 65537}, byte(tls.RSA)
+	case 2:
+		sg.pub = &ecdsa.PublicKey{Curve: elliptic.P384()}
+	case 3:
+		sg.pub = &ecdsa.PublicKey{Curve: elliptic.P521()}
 	}
 	li.signer = sg
 	sec := vI64("clock.sec")
